@@ -81,7 +81,7 @@ def streams(tier, rng, fs, profile):
     for ty in ("f64", "f32"):
         cases = gens.float_bits_cases(rng, ty, 200 if quick else 3000, rich=True)
         if quick:
-            cases = rng.sample(cases, 700)
+            cases = rng.sample(cases, min(len(cases), 700))
         for r in rads:
             f = gens.fmt_hex(gens.pack(r))
             e = gens.exp_char(r)
